@@ -56,13 +56,36 @@ theorem indication_only_callback (s : St) (t q : Nat) (f : Frame) (hf : f.code =
       · split <;> simp
     · simp
 
-/-- … and on an open connection an in-sequence indication does reach the callback. -/
+/-- … and on an open connection with a registered callback an in-sequence indication does reach it. -/
 theorem indication_delivered (s : St) (t q : Nat) (f : Frame) (hf : f.code = .ind) (hc : s.chan = true)
-    (hq : s.udp = false ∨ q = s.sexp) : (s.now, Ev.ind f.p) ∈ (inject s (.cemi t q f)).2 := by
+    (hcb : s.cb = true) (hq : s.udp = false ∨ q = s.sexp) : (s.now, Ev.ind f.p) ∈ (inject s (.cemi t q f)).2 := by
   simp only [inject, deliver, hf]
   rcases hq with hq | hq
-  · simp [hc, hq]
-  · by_cases hu : s.udp = true <;> simp [hc, hu, hq]
+  · simp [hc, hq, hcb]
+  · by_cases hu : s.udp = true <;> simp [hc, hu, hq, hcb]
+
+/-- Without an `indication_callback` (the constructor default) an indication is acknowledged and otherwise has no
+effect at all: nothing but the ACK is produced. -/
+theorem indication_without_callback (s : St) (t q : Nat) (f : Frame) (hf : f.code = .ind) (hcb : s.cb = false) :
+    ∀ o ∈ (inject s (.cemi t q f)).2, o = (s.now, .ack q) := by
+  simp only [inject, deliver, hf, hcb]
+  split
+  · simp
+  · split
+    · split
+      · simp
+      · split <;> simp
+    · simp
+
+/-- With or without a callback, whatever the state: the frame a result is taken from is never an indication (nor a
+frame of any other message code than the confirmation of the request's own service). -/
+theorem indication_never_a_result (s : St) (i : In) (t k : Nat) (res : Result)
+    (h : (t, Ev.res k res) ∈ (step s i).2) (hne : res ≠ .comm) :
+    ∃ (r : Req) (f : Frame), f ∈ available s i ∧ r.k = k ∧ res = r.resultOf f ∧ f.code ≠ .ind ∧ f.code ≠ .rq ∧
+      f.code ≠ .gb := by
+  obtain ⟨r, f, hf, hk, hm, _, hr⟩ := result_only_from_own_answer s i t k res h hne
+  refine ⟨r, f, hf, hk, hr, ?_⟩
+  rcases hm.1 with ⟨_, hc⟩ | ⟨_, hc⟩ <;> simp [hc]
 
 /-! ### closing -/
 
@@ -225,5 +248,11 @@ example : (step (step (step (St.init true) (.call 0 ⟨1, .read, ⟨11, 1, 52⟩
     (.cemi 5 0 ⟨.rc, ⟨11, 1, 53⟩, false, 7⟩)).2 = [(5, .ack 0)] := by decide
 example : (step (step (step (St.init false) (.call 0 ⟨1, .write, ⟨0, 1, 11⟩⟩)).1 (.call 1 ⟨2, .read, ⟨0, 1, 11⟩⟩)).1
     (.close 9 .lost)).2 = [(9, .res 1 .comm), (9, .res 2 .comm)] := by decide
+/-- no callback: an indication for the very property being read only gets its ACK; the read then takes the M_PropRead.con -/
+example : (step (step (step (St.init true false) (.call 0 ⟨1, .read, ⟨11, 1, 52⟩⟩)).1 (.ackIn 0 0 false true)).1
+    (.cemi 5 0 ⟨.ind, ⟨11, 1, 52⟩, false, 9⟩)).2 = [(5, .ack 0)] := by decide
+example : (step (step (step (step (St.init true false) (.call 0 ⟨1, .read, ⟨11, 1, 52⟩⟩)).1 (.ackIn 0 0 false true)).1
+    (.cemi 5 0 ⟨.ind, ⟨11, 1, 52⟩, false, 9⟩)).1 (.cemi 6 1 ⟨.rc, ⟨11, 1, 52⟩, false, 7⟩)).2
+    = [(6, .ack 1), (6, .res 1 (.okData 7))] := by decide
 
 end XknxVerif.Props.C32
